@@ -552,6 +552,21 @@ def r4(ctx):
                and isinstance(x.op, ast.Sub)]
         okc = bool(dec) and isinstance(elem, ast.Name) and src(dec[0].value) == f'len({elem.id})'
         ctx.emit('C07-R4', okc, MOLITER, a, 'waiting_fragments is decremented by len(molecule) where the molecule is selected', key=f'waiting-counter:{src(E)}', nontrivial=False)
+    # inside the read loop a buffer is never emptied wholesale: a molecule leaves only through its own can_be_yielded test
+    main_ = _main_loop(f)
+    wholesale = []
+    for n_ in walk_no_nested(main_):
+        if isinstance(n_, ast.Assign) and any(any(k_ == 'L' for k_, b_ in ty(t_)) and not isinstance(t_, ast.Name) for t_ in n_.targets) and isinstance(n_.value, (ast.List, ast.Call)) \
+                and (not isinstance(n_.value, ast.List) or not n_.value.elts):
+            wholesale.append(n_)
+        elif isinstance(n_, ast.Call) and isinstance(n_.func, ast.Attribute) and n_.func.attr == 'clear' and any(k_ in ('L', 'D') for k_, b_ in ty(n_.func.value)):
+            wholesale.append(n_)
+        elif isinstance(n_, ast.Delete) and any(isinstance(t_, ast.Subscript) and isinstance(t_.slice, ast.Slice) and t_.slice.lower is None and t_.slice.upper is None
+                                                and any(k_ == 'L' for k_, b_ in ty(t_.value)) for t_ in n_.targets):
+            wholesale.append(n_)
+    if wholesale:
+        ctx.emit('C07-R4', False, MOLITER, wholesale[0], f'a buffer is emptied wholesale inside the read loop (`{src(wholesale[0])[:50]}`): molecules leave without their own can_be_yielded test '
+                 '(a molecule still being assembled is ejected with an older one)', key='selection-guard:wholesale', what='a whole buffer is ejected on the verdict of one molecule')
     ctx.need('C07-R4', n, 1, 'ejection selection loops')
     if covered != set(BUFFERS):
         raise AnalysisError(f'C07-R4: ejection selection covers the buffers {sorted(covered)}, expected both {sorted(BUFFERS)} (idiom not recognised)')
